@@ -413,5 +413,23 @@ def derives(func_node, expr: ast.AST, at: Optional[int] = None, rd: Optional[Rea
             for ix in d.index:
                 visit(ix, d.node, {})
 
-    visit(expr, at, {})
+    # names bound by comprehensions that enclose the expression
+    bound0: Dict[str, ast.AST] = {}
+    pnode = getattr(expr, "parent", None)
+    child = expr
+    while pnode is not None and not isinstance(pnode, ast.stmt):
+        if isinstance(pnode, (ast.ListComp, ast.SetComp, ast.GeneratorExp, ast.DictComp)):
+            gens = pnode.generators
+            # generators to the left of the one containing `child` bind names too
+            for g in gens:
+                if child is g.iter and g is gens[0]:
+                    break
+                for nm in [n.id for n in ast.walk(g.target) if isinstance(n, ast.Name)]:
+                    bound0.setdefault(nm, g.iter)
+        elif isinstance(pnode, ast.Lambda):
+            for a in pnode.args.args:
+                bound0.setdefault(a.arg, ast.Constant(value=None))
+        child = pnode
+        pnode = getattr(pnode, "parent", None)
+    visit(expr, at, bound0)
     return D
